@@ -194,8 +194,13 @@ func (ms *Modules) resolveIdentities() []error {
 				break
 			}
 		}
+		// newValues was built in map iteration order, so identities with
+		// the same name must be further ordered by their module name.
 		sort.SliceStable(newValues, func(j, k int) bool {
-			return newValues[j].Name < newValues[k].Name
+			if newValues[j].Name != newValues[k].Name {
+				return newValues[j].Name < newValues[k].Name
+			}
+			return module(newValues[j]).Name < module(newValues[k]).Name
 		})
 		i.Identity.Values = newValues
 	}
